@@ -4,9 +4,18 @@
 `fn` (same nesting of if/while/for(+else)/with/try-except-else-finally/break/continue/return/raise) but
   * every CFG-relevant node is replaced by a probe `__t.p(<serial id>)` placed where the node is executed,
   * every decision is taken from the tracer's decision vector: tests (`__t.test(id)`), loop continuation
-    (`__t.loop(id)`, a generator probing the header before every continuation decision), and which handler of which
-    enclosing try catches an explicit raise (`__t.mk(chain)` pops one decision per enclosing try that has handlers,
-    innermost first; handler clauses become `except __t.h(try_id, k)`),
+    (`__t.loop(id)`, a generator probing the header before every continuation decision), and WHAT an explicit raise
+    raises:
+      - concrete mode (every handler type of the function is a known exception class, a tuple of them, or bare): the
+        handler clauses keep their types, evaluated over real classes (the builtin exceptions and `E`, `E0`..`E3`
+        defined in the copy); `raise C(...)` / `raise C` of a known class raises an instance of that class, any other
+        raise (the generic `raise E(a)`, a bare re-raise, an unknown expression) raises a class chosen by the decision
+        vector from the function's universe: the classes named by its handlers, a fresh `Exception` subclass and a fresh
+        `BaseException` subclass (not an `Exception`, like KeyboardInterrupt).  WHICH handler of which enclosing try
+        catches is then CPython's own matching rule; the tracer records the equivalent handler choices (one per
+        enclosing try that has handlers, innermost first) as the decision vector of the Lean walk,
+      - abstract mode (some handler type is an arbitrary expression): `__t.mk(chain)` pops one decision per enclosing
+        try that has handlers, innermost first, and handler clauses become `except __t.h(try_id, k)`,
   * an exception that propagates through a `finally` block freezes the trace (`__t.stop()`): the property
     exempts exceptional propagation through finally blocks, so the trace ends at the raise node.
 CPython executes the copy, so loop-else, break/continue/return through finally blocks, handler fall-through etc.
@@ -16,6 +25,38 @@ Which lambda probes precede a statement is defined here independently of the Lea
 `ast.NodeVisitor.generic_visit` meets the outermost lambdas (`ast.iter_child_nodes` order).
 """
 import ast
+import builtins
+
+GENERIC = 'E'                                   # `raise E(a)`: some exception, the decision vector says which class
+LOCAL_CLASSES = ['E', 'E0', 'E1', 'E2', 'E3']   # defined in every instrumented copy (subclasses of Exception)
+KNOWN = {n for n in dir(builtins) if isinstance(getattr(builtins, n), type) and issubclass(getattr(builtins, n), BaseException)}
+KNOWN |= set(LOCAL_CLASSES)
+
+
+def type_names(t):
+    """names of the classes a handler type mentions, or None when the type is not (a tuple of) known class names"""
+    if t is None:
+        return []
+    if isinstance(t, ast.Name):
+        return [t.id] if t.id in KNOWN else None
+    if isinstance(t, ast.Tuple):
+        out = []
+        for e in t.elts:
+            if not (isinstance(e, ast.Name) and e.id in KNOWN):
+                return None
+            out.append(e.id)
+        return out
+    return None
+
+
+def raised_class(s):
+    """the known class an `ast.Raise` raises, or None (generic / re-raise / unknown expression)"""
+    e = s.exc
+    if isinstance(e, ast.Call):
+        e = e.func
+    if isinstance(e, ast.Name) and e.id in KNOWN and e.id != GENERIC:
+        return e.id
+    return None
 
 
 def lams(node, ser):
@@ -36,8 +77,9 @@ class Unsupported(Exception):
 
 
 class _Gen:
-    def __init__(self, ser):
+    def __init__(self, ser, concrete=False):
         self.ser = ser
+        self.concrete = concrete
         self.lines = []
         self.trys = []   # enclosing try statements in the current function: (node, position)
 
@@ -63,6 +105,17 @@ class _Gen:
             nh = len(node.handlers) if pos == 'body' else 0
             out.append((self.ser.id_of(node), nh, bool(node.finalbody)))
         return out
+
+    def chain_src(self):
+        """the same chain with the handler TYPES (evaluated when the raise executes), as source text"""
+        out = []
+        for node, pos in reversed(self.trys):
+            if pos == 'final':
+                continue
+            hs = node.handlers if pos == 'body' else []
+            tys = ''.join(('None' if h.type is None else ast.unparse(h.type)) + ', ' for h in hs)
+            out.append('(%d, (%s), %r)' % (self.ser.id_of(node), tys, bool(node.finalbody)))
+        return '[' + ', '.join(out) + ']'
 
     def stmt(self, s, ind):
         ser, w = self.ser, self.w
@@ -110,7 +163,10 @@ class _Gen:
                 for k, h in enumerate(s.handlers):
                     if h.name is not None:
                         raise Unsupported('except ... as name')
-                    w(base, 'except __t.h(%d, %d):' % (tid, k))
+                    if self.concrete:
+                        w(base, 'except:' if h.type is None else 'except %s:' % ast.unparse(h.type))
+                    else:
+                        w(base, 'except __t.h(%d, %d):' % (tid, k))
                     self.trys.append((s, 'handler'))
                     if h.type is not None:
                         self.probes(base + 1, lams(h.type, ser))
@@ -140,7 +196,10 @@ class _Gen:
         elif t is ast.Raise:
             self.probes(ind, kid_lams(s, ser))
             w(ind, '__t.p(%d)' % i)
-            w(ind, 'raise __t.mk(%r)' % (self.chain(),))
+            if self.concrete:
+                w(ind, 'raise __t.mkc(%s, %s)' % (self.chain_src(), raised_class(s) or 'None'))
+            else:
+                w(ind, 'raise __t.mk(%r)' % (self.chain(),))
         elif t is ast.Break:
             w(ind, '__t.p(%d)' % i)
             w(ind, 'break')
@@ -160,7 +219,22 @@ class _Gen:
 def instrument(fn, ser):
     if type(fn) is not ast.FunctionDef:
         raise Unsupported(type(fn).__name__)
-    g = _Gen(ser)
+    named, concrete = [], True
+    for n in ast.walk(fn):
+        if isinstance(n, ast.ExceptHandler):
+            tn = type_names(n.type)
+            if tn is None:
+                concrete = False
+            else:
+                named += [x for x in tn if x not in named]
+    g = _Gen(ser, concrete)
+    if concrete:
+        for c in LOCAL_CLASSES:
+            g.w(0, 'class %s(Exception): pass' % c)
+        g.w(0, 'class UExc__(Exception): pass')
+        g.w(0, 'class UBase__(BaseException): pass')
+        # the universe a generic raise chooses from: the classes the handlers name, and one ordinary / one base-only class
+        g.w(0, 'U__ = [%s]' % ', '.join(named[:3] + ['UExc__', 'UBase__']))
     g.w(0, 'def __instr(__t):')
     g.probes(1, kid_lams(fn.args, ser))
     g.w(1, '__t.p(%d)' % ser.id_of(fn.args))
@@ -183,32 +257,39 @@ class _NullCm:
 
 
 class Tracer:
-    def __init__(self, decisions, max_probes=4000):
+    def __init__(self, decisions, universe=None, max_probes=4000):
         self.dec = list(decisions)
         self.pos = 0
         self.trace = []
         self.arity = []         # arity of every decision actually taken (before the trace froze)
         self.taken = []
+        self.wtaken = []        # the same run as decisions of the Lean walk (handler choices instead of raised classes)
         self.frozen = False
         self.cur = None
+        self.universe = universe
         self.max_probes = max_probes
         self.overflow = False
 
-    def pop(self, arity):
+    def pop(self, arity, walk=True):
         if self.frozen:
             return 0
         v = self.dec[self.pos] if self.pos < len(self.dec) else 0
+        if v >= arity:
+            v = 0
         self.pos += 1
         self.arity.append(arity)
         self.taken.append(v)
+        if walk:
+            self.wtaken.append(v)
         return v
 
     def p(self, i):
         if not self.frozen:
             self.trace.append(i)
             if len(self.trace) > self.max_probes:
+                # stop recording and let the copy run out (every further decision is 0: loops end, tests fail)
                 self.overflow = True
-                raise KeyboardInterrupt
+                self.frozen = True
 
     def test(self, i):
         self.p(i)
@@ -220,6 +301,31 @@ class Tracer:
             if self.pop(2) == 0:
                 return
             yield None
+
+    def mkc(self, chain, cls):
+        """concrete mode: raise an instance of `cls`, or of a class of the universe chosen by the decision vector;
+        record which handler CPython's matching rule will select, try by try, as decisions of the walk"""
+        if cls is None:
+            cls = self.universe[self.pop(len(self.universe), walk=False)]
+        if not self.frozen:
+            for tid, types, has_final in chain:
+                nh = len(types)
+                if nh:
+                    k = nh
+                    for j, ty in enumerate(types):
+                        if issubclass(cls, BaseException if ty is None else ty):
+                            k = j
+                            break
+                    self.wtaken.append(k)
+                    if k < nh:
+                        break
+                if has_final:
+                    break
+        try:
+            self.cur = cls()
+        except TypeError:
+            self.cur = cls.__new__(cls)
+        return self.cur
 
     def cm(self):
         return _NullCm()
@@ -250,24 +356,31 @@ class Tracer:
 def compile_instr(src):
     env = {}
     exec(compile(src, '<c05-instrumented>', 'exec'), env)
-    return env['__instr']
+    f = env['__instr']
+    f.universe = env.get('U__')
+    return f
 
 
 def run(fn_obj, decisions):
-    """-> (trace, outcome, consumed, arities) ; outcome in completed/raise/exempt"""
-    t = Tracer(decisions)
+    """-> (trace, outcome, consumed by the walk, arities, decisions taken, decisions of the walk);
+    outcome in completed/raise/exempt"""
+    t = Tracer(decisions, getattr(fn_obj, 'universe', None))
     try:
         fn_obj(t)
         out = 'exempt' if t.frozen else 'completed'
-    except _Raise:
+    except BaseException as e:
+        if e is not t.cur:
+            raise
         out = 'exempt' if t.frozen else 'raise'
-    return t.trace, out, len(t.taken), t.arity, t.taken
+    if t.overflow:
+        out = 'overflow'
+    return t.trace, out, len(t.wtaken), t.arity, t.taken, t.wtaken
 
 
 def decision_vectors(fn_obj, max_len, max_runs):
     """Depth-first enumeration of the decision tree of the instrumented function: every run is determined by the
     decisions it actually took; alternatives are explored for every position up to `max_len`.
-    Yields (decisions actually taken, trace, outcome, consumed).  `complete` is reported through the
+    Returns (decisions actually taken, trace, outcome, decisions the walk consumes, decisions of the walk).  `complete` is reported through the
     attribute `.exhausted` of the returned list."""
     out = []
     stack = [[]]
@@ -278,12 +391,13 @@ def decision_vectors(fn_obj, max_len, max_runs):
             exhausted = False
             break
         prefix = stack.pop()
-        trace, outcome, consumed, arity, taken = run(fn_obj, prefix)
+        trace, outcome, consumed, arity, taken, wtaken = run(fn_obj, prefix)
         key = tuple(taken)
         if key in seen:
             continue
         seen.add(key)
-        out.append((list(taken), trace, outcome, consumed))
+        if outcome != 'overflow':
+            out.append((list(taken), trace, outcome, consumed, list(wtaken)))
         # alternatives at positions not fixed by the prefix
         for pos in range(len(prefix), min(len(taken), max_len)):
             for alt in range(1, arity[pos]):
